@@ -171,4 +171,14 @@ theorem routeSources_expected : (routes.map (fun r => (r.src, r.cond))).eraseDup
 theorem sigClasses_expected : (routes.map (·.sig)).eraseDups = ["plain", "user"] := by decide +kernel
 theorem gateKinds_expected : (routes.map (·.authz)).eraseDups = [[], ["query"], ["write@db"], ["write"], ["admin"]] := by decide +kernel
 
+/-- the character form of the patterns / prefixes (used by the model's dispatch, because
+`String.toList` is slow in the kernel) spells the same strings. -/
+theorem patternC_expected : routes.all (fun r => String.ofList r.patternC == r.pattern) = true := by decide +kernel
+theorem preMuxPrefixesC_expected : preMuxPrefixesC.map String.ofList = preMuxPrefixes := by decide +kernel
+
+/-- `group` / `external` restate `src`. -/
+theorem routeGroups_expected : (routes.map (fun r => (r.group, r.external))).eraseDups = [
+  ("AddFluxAPIRoute", false), ("AddInfluxDBAPIRoutes", false), ("AddPrometheusAPIRoutes", false),
+  ("AddSysAPIRoutes", false), ("AddLogstreamAPIRoutes", false), ("NewServer", true)] := by decide +kernel
+
 end OG.C19.Facts
